@@ -1,7 +1,7 @@
-(* Proofs/C20_link.v — the pinned site programs are safe (reflection), and "model agrees => property holds"
-   for the correspondence verdicts of Corr/C20.v. *)
+(* Proofs/C20_link.v — history: the site programs pinned in Model/C20.v (an earlier commit) and their verdicts;
+   decidable equality of programs.  The tie to the CURRENT source is Bridge/C20.v. *)
 From Coq Require Import ZArith List Bool Arith Lia.
-From BNP Require Import Base.Prims Model.C20 Proofs.C20 Corr.C20.
+From BNP Require Import Base.Prims Model.C20 Proofs.C20.
 Import ListNotations.
 Open Scope nat_scope.
 
@@ -86,47 +86,3 @@ Qed.
 
 Lemma site13_fixed_safe : safe_prog 1 site_13_fixed = true.
 Proof. vm_compute. reflexivity. Qed.
-
-Lemma lookup_site_sel_safe : forall sid np site,
-  lookup_site_sel sid = Some (np, site) -> sid <> 14%Z -> safe_prog np site = true.
-Proof.
-  intros sid np site H Hne. unfold lookup_site_sel in H.
-  assert (E : Z.eqb sid 14 = false) by (apply Z.eqb_neq; auto). rewrite E in H.
-  rewrite andb_false_r in H.
-  destruct (fix1_applied && Z.eqb sid 13) eqn:E13.
-  - inversion H; subst. exact site13_fixed_safe.
-  - eapply lookup_site_safe; eauto.
-Qed.
-
-Theorem model_implies_spec_partial : forall c,
-  k_site c <> 14%Z -> model_ok c = true -> spec_ok c = true.
-Proof.
-  intros c Hs H. unfold model_ok in H. unfold spec_ok.
-  destruct (Z.eqb (k_kind c) 0) eqn:E0.
-  - unfold model_call_ok in H. rewrite model_prog_sel_nil in H by auto. simpl in H.
-    rewrite firstn_all in H. rewrite zll_eqb_refl in H. simpl in H.
-    unfold observed_unchanged.
-    destruct (zll_eqb (k_before c) (k_after c)); simpl in *; try discriminate.
-    destruct (zlist_eqb (k_log_before c) (k_log_after c)); simpl in *; try discriminate. exact H.
-  - destruct (Z.eqb (k_kind c) 1) eqn:E1; auto.
-    destruct (Z.eqb (k_kind c) 2) eqn:E2; auto.
-    destruct (lookup_site_sel (k_site c)) as [[n p]|] eqn:El; [|discriminate].
-    apply andb_true_iff in H. destruct H as [H1 H2]. apply Nat.eqb_eq in H1. apply prog_eqb_eq in H2.
-    subst. eapply lookup_site_sel_safe; eauto.
-Qed.
-
-(* the exclusion is needed for the code as it is: a genotype-encoding call on which the model (which has the
-   defect) agrees with the implementation, and the property fails *)
-Theorem model_implies_spec_refuted :
-  fix1_applied = false ->
-  exists c, k_site c = 14%Z /\ model_ok c = true /\ spec_ok c = false.
-Proof.
-  intros Hf.
-  exists {| k_kind := 0; k_site := 14; k_cow := false; k_target := 0;
-            k_before := [[48; 47; 49; 10]%Z]; k_after := [[48; 47; 49; 9]%Z];
-            k_log_before := [1%Z]; k_log_after := [2%Z]; k_res1 := []; k_res2 := [];
-            k_w_ref := []; k_w_got := []; k_np := 0; k_prog := []; k_flags := [] |}.
-  split; [reflexivity|]. split.
-  - unfold model_ok, model_call_ok, model_prog_sel. rewrite Hf. vm_compute. reflexivity.
-  - vm_compute. reflexivity.
-Qed.
